@@ -511,8 +511,17 @@ def check(case):
         got_t = r['trace']
         # the mock builds returned objects with the class's default constructor; if the
         # interface declares that constructor it leaves a record of its own
-        while len(got_t) > len(want_t) and re.search(r'::(\w+)\|\(\)\|this=\d+\|$', got_t[-1]):
-            got_t = got_t[:-1]
+        if len(got_t) > len(want_t):
+            wanted = {w_['entity'] for w_ in want_t}
+            kept = [g_ for g_ in got_t
+                    if not (re.search(r'(\w+)::\1\|\(\)\|this=\d+\|$', g_) and
+                            g_.split('|(')[0] not in wanted)]
+            if len(kept) >= len(want_t):
+                got_t = kept
+            # (a wanted default constructor may itself occur as such noise: keep the last ones)
+            while len(got_t) > len(want_t) and \
+                    re.search(r'::(\w+)\|\(\)\|this=\d+\|$', got_t[0]):
+                got_t = got_t[1:]
         if len(got_t) != len(want_t):
             out.append(Failure('C04.trace-count', '%s: library recorded %s, expected %d '
                                'call(s)' % (label, got_t[:3], len(want_t))))
